@@ -8,6 +8,8 @@ package main
 //                              response stamped with one atomic counter) is put INTO the case; the model searches a linearisation
 // mode 2  [2; a; b; iters]     the method pair (a, b) hammered by two goroutines in a separate binary built with -race
 //                              (go test -race -c in a scratch directory under build/); output [0] = no report
+// mode 3  [3; before; after; obs...]  one bulk call (Delete of many keys, Clear, Map) against polling readers: the sizes they saw
+//                              are put INTO the case; the model checks that each is `before` or `after` and never goes back
 
 import (
 	"crypto/sha1"
@@ -20,6 +22,7 @@ import (
 	"strings"
 	"sync"
 	"sync/atomic"
+	"time"
 
 	"github.com/welllog/golib/mapz"
 )
@@ -407,8 +410,122 @@ func c12Impl(in []int64) []int64 {
 			return []int64{BADCASE}
 		}
 		return c12Race(in[1], in[2], in[3])
+	case 3:
+		return []int64{1} // recorded observations of one bulk call: the implementation's claim is that they are atomic
 	}
 	return []int64{BADCASE}
+}
+
+// mode 3: one bulk call on n prefilled keys (kind 0 Delete(all keys) 1 Clear 2 Map deleting everything 3 Map adding n more
+// 4 Delete(first half of the keys)) while readers poll Len / len(Keys) / len(Values) / a Range count / GetWithMap size.
+// Every observation must be the size before or the size after the call, and never go back (per reader).
+func c12Bulk(n int, kind int, readers int) []int64 {
+	s := mapz.NewSafeKV[int64, int64](0)
+	keys := make([]int64, n)
+	for i := range keys {
+		keys[i] = int64(i)
+		s.Set(int64(i), int64(i))
+	}
+	after := 0
+	switch kind {
+	case 3:
+		after = 2 * n
+	case 4:
+		after = n - n/2
+	}
+	obs := make([][]int64, readers)
+	var started, stop atomic.Int64
+	var wg sync.WaitGroup
+	for ri := 0; ri < readers; ri++ {
+		ri := ri
+		wg.Add(1)
+		go func() {
+			defer wg.Done()
+			started.Add(1)
+			last := int64(-7)
+			for it := 0; it < 200000; it++ {
+				var v int64
+				switch (ri + it) % 5 {
+				case 0:
+					v = int64(s.Len())
+				case 1:
+					v = int64(len(s.Keys()))
+				case 2:
+					v = int64(len(s.Values()))
+				case 3:
+					s.Range(func(int64, int64) bool { v++; return true })
+				case 4:
+					m := make(map[int64]int64, 2*n)
+					for i := 0; i < 2*n; i++ {
+						m[int64(i)] = -9
+					}
+					s.GetWithMap(m) // fills in the values of the keys that are present
+					for _, x := range m {
+						if x != -9 {
+							v++
+						}
+					}
+				}
+				if v != last {
+					obs[ri] = append(obs[ri], v)
+					last = v
+				}
+				if stop.Load() != 0 && v == int64(after) {
+					return
+				}
+				if stop.Load() > 1 {
+					return
+				}
+			}
+		}()
+	}
+	for started.Load() < int64(readers) {
+		runtime.Gosched()
+	}
+	for i := 0; i < 50; i++ {
+		runtime.Gosched()
+	}
+	switch kind {
+	case 0:
+		s.Delete(keys...)
+	case 1:
+		s.Clear()
+	case 2:
+		s.Map(func(m mapz.KV[int64, int64]) {
+			for _, k := range keys {
+				delete(m, k)
+				if k%16 == 0 {
+					runtime.Gosched()
+				}
+			}
+		})
+	case 3:
+		s.Map(func(m mapz.KV[int64, int64]) {
+			for i := 0; i < n; i++ {
+				m[int64(n+i)] = 1
+				if i%16 == 0 {
+					runtime.Gosched()
+				}
+			}
+		})
+	case 4:
+		s.Delete(keys[:n/2]...)
+	}
+	stop.Store(1)
+	done := make(chan struct{})
+	go func() { wg.Wait(); close(done) }()
+	select {
+	case <-done:
+	case <-time.After(10 * time.Second):
+		stop.Store(2)
+		<-done
+	}
+	in := []int64{3, int64(n), int64(after)}
+	for _, o := range obs {
+		in = append(in, o...)
+		in = append(in, -1)
+	}
+	return in
 }
 
 func c12RandOp(r interface{ Intn(int) int }, nkeys int, conc bool) [4]int64 {
@@ -569,6 +686,18 @@ func c12Gen(c *Ctx) {
 		t.C.Count("history", fmt.Sprintf("threads=%d overlapped=%v", T, overlapped))
 		t.Try("history", in, overlapped)
 	})
+	// ---- one bulk call against polling readers: sizes around every plausible internal batch size
+	bulkSizes := []int{2, 15, 16, 17, 31, 32, 33, 63, 64, 65, 100, 127, 128, 129, 255, 256, 257, 511, 512, 513, 1000, 1023, 1024, 1025, 4096, 4097}
+	c.Each(c.N(4, 40)*len(bulkSizes)*5, func(i int, t *T) {
+		if tooMany() {
+			return
+		}
+		n := bulkSizes[i%len(bulkSizes)]
+		kind := (i / len(bulkSizes)) % 5
+		in := c12Bulk(n, kind, 2+i%3)
+		t.C.Count("bulk", fmt.Sprintf("kind=%d", kind))
+		t.Try("bulk-call-atomic", in, len(in) > 3+2+i%3)
+	})
 }
 
 func c12Describe(in []int64) string {
@@ -596,6 +725,11 @@ func c12Describe(in []int64) string {
 			i += 7 + rl
 		}
 		return s
+	case 3:
+		if len(in) >= 3 {
+			return fmt.Sprintf("%d keys, one bulk call (Delete(keys...) / Clear / Map) leaving %d, sizes seen by the polling readers (-1 ends a reader): %v", in[1], in[2], in[3:])
+		}
+		return "?"
 	case 2:
 		if len(in) == 4 {
 			return fmt.Sprintf("go test -race: 2+2 goroutines calling %s and %s %d times each on one SafeKV, each goroutine also doing a Set every 64 iterations (impl output 1 = DATA RACE reported, 2 = runtime died)",
